@@ -190,6 +190,10 @@ class FileStorageFormatter:
                 return _file.read(h.plen), h.tid, back, h.tloc
             if h.back == 0 and not fail:
                 return None, h.tid, back, h.tloc
+            if h.back >= back:
+                # backpointers point backwards; a damaged one must not
+                # make us loop forever
+                raise CorruptedDataError(oid, b'', back)
             back = h.back
 
     def _loadBackTxn(self, oid, back, fail=True):
